@@ -243,6 +243,8 @@ def call_builtin(eng, name, args, kwargs, st, node):
         raise Unsupported(node, '%s() of %r' % (name, args[0]))
     if name in ('set', 'dict') and not args:
         return [(st, V('obj', oid='new!%s!%d' % (name, next(eng.counter))))]
+    if name == 'pow' and len(args) == 2:
+        return eng.num_binop(ast.Pow(), args[0], args[1], st, node)
     if name == 'callable':
         v = args[0]
         return [(st, vbool(v.k in ('func', 'class')))]
